@@ -373,15 +373,19 @@ def main(argv=None) -> int:
             else:
                 rep.violation(f"sub({case.get('pattern')!r}, {case.get('replacement')!r}, {case['source']!r}, count={case.get('count')}): {case['what']}", case)
     stats["special_cases"] = special_part(rep, import_pyrefact(), known)
+    # Fields.tla (optional parts of syntax forms, expression contexts): which code a pattern selects for rewriting
+    import c12_fields
+    c12_fields.run(rep, t, stats, api="subn")
     rep.sample({"case": all_recs[0]["case"], "source": render(all_recs[0]["case"])[0], "admissible": all_recs[0]["admissible"]})
-    rep.coverage["evaluations"] = stats.get("cases", 0) + stats.get("special_cases", 0)
+    rep.coverage["evaluations"] = stats.get("cases", 0) + stats.get("special_cases", 0) + stats.get("field_cases", 0) + stats.get("ctx_sources", 0)
     rep.coverage["distinct_nontrivial"] = stats.get("with_matches", 0)
     rep.coverage["traces_validated_against_impl"] = stats.get("cases", 0)
     rep.coverage["detail"] = stats
     rep.coverage["rule"] = ("every Subst.tla case (modules of 1..3 statements over 11 statement kinds x patterns x 7 replacement templates x 2 bound values x "
                             "counts 0/1/2; statement-sequence patterns over 1..4 statements) replayed into sub / subn (a sample also into the command line); "
                             "the tree of the result must equal the reference substitution for one of the admissible sets TLC enumerated; "
-                            "non-trivial = the pattern occurs")
+                            "non-trivial = the pattern occurs. Fields.tla: every (pattern variant, code variant) of the optional parts of 27 syntax "
+                            "forms and every expression context holding an occurrence, through subn: the count and the untouched text")
     rep.assumptions += ["which admissible set of matches is applied is left to the implementation (TLC enumerates them all)",
                         "the number returned by subn is only required not to exceed a positive count (the statement does not say more)"]
     return rep.finish()
